@@ -3,10 +3,13 @@
 (* the arithmetic index of Faidx.tla (TLC-checked equal to the byte-level one at small scope, OffsetsAgree)  *)
 (* evaluated on records of millions of bases.                                                                 *)
 EXTENDS Faidx, Json
-BigRecs == <<[hdr |-> 2, L |-> 4000003, W |-> 60], [hdr |-> 7, L |-> 3999997, W |-> 70], [hdr |-> 2, L |-> 2500000, W |-> 80],
+\* (the first record is longer than one raw read of 5 000 000 bytes and is laid out so that byte 5 000 000 of the file is the newline of a
+\* full line: 1 + 11 + 1 header bytes, 61 bytes per line, 13 + 61 * 81967 = 5 000 000)
+BigRecs == <<[hdr |-> 11, L |-> 5100007, W |-> 60], [hdr |-> 7, L |-> 3999997, W |-> 70], [hdr |-> 2, L |-> 2500000, W |-> 80],
              [hdr |-> 2, L |-> 1200001, W |-> 50], [hdr |-> 7, L |-> 130, W |-> 50]>>
 BigInit == recs = BigRecs /\ last = [op |-> "open"] /\ pos = 0 /\ nf = 0 /\ gen = 0
 BigSpec == BigInit /\ [][UNCHANGED vars]_vars
-EmitBig == PrintT(ToJson([recs |-> recs, index |-> [r \in DOMAIN recs |-> IndexRowArith(recs, r)],
+ReadBoundaryAtLineEnd == (1 + BigRecs[1].hdr + Len(EOL)) + (BigRecs[1].W + Len(EOL)) * ((5000000 - (1 + BigRecs[1].hdr + Len(EOL))) \div (BigRecs[1].W + Len(EOL))) = 5000000 \/ CRLF
+EmitBig == PrintT(ToJson([recs |-> recs, crlf |-> CRLF, index |-> [r \in DOMAIN recs |-> IndexRowArith(recs, r)],
                           flen |-> SizeBefore(recs, Len(recs)) + RecSize(recs[Len(recs)])]))
 ==============================================================================
